@@ -602,10 +602,136 @@ class Gen:
         self.stats["prefix_pair_cases"] += 1
         return {"name": "pair%d" % cid, "ops": ops, "sticky": sticky}
 
+    # ---------------------------------------------------------------- several config files, same options
+    LENS = [1, 2, 3, 4, 7, 8, 9, 15, 16, 17, 23, 24, 25, 31, 32, 33, 63, 64, 65, 127, 128, 129, 200]
+
+    def sized_value(self, o, L):
+        """a valid argument for o of exactly L characters where the type allows it"""
+        rng = self.rng
+        ty = o["type"]
+        if ty == INT:
+            d = str(rng.randrange(0, 10 ** min(L, 9)))
+            return d.rjust(L, "0")
+        if ty == REAL:
+            if L == 1:
+                return str(rng.randrange(0, 10))
+            ip = str(rng.randrange(0, 100))
+            fr = str(rng.randrange(0, 1000))
+            t = ip + "." + fr
+            return (t + "0" * (L - len(t))) if len(t) <= L else t[:L].rstrip(".").ljust(L, "0") if "." in t[:L - 1] else str(rng.randrange(0, 10)) + "." + "5" * (L - 2) if L <= 6 else ip[:1] + "." + "25".ljust(L - 2, "0")
+        if ty == CHAR:
+            return rng.choice("abcxyzABC0189_%")
+        alphabet = rng.choice(["v", "abcdefghij", "0123456789", "aZ.-_/"])
+        v = "".join(rng.choice(alphabet) for _ in range(L))
+        return ("a" + v[1:]) if v[0] in "-" else v          # a string argument starting with '-' is refused on the command line
+
+    def multicfg_case(self, cid):
+        """histories in which several config files (and other sources in between) set the SAME argument-taking options
+        with values of decreasing / equal / increasing length: the block set_option copies a config-file value into is
+        reused when it is large enough, and every dump shows the exact stored string and the block size"""
+        rng = self.rng
+        t = Table()
+        nopt = rng.choice([1, 2, 3, 4, 5])
+        kinds = [STRING, STRING, INT, REAL, CHAR, 5, 6]
+        for k in range(nopt):
+            ty = rng.choice(kinds)
+            nm = rng.choice(["-" + "nxcsio"[k], "--opt%d" % k]) if k < 6 else "--opt%d" % k
+            o = {"name": nm, "type": ty, "def": None, "env": None, "range": None, "tog": None, "req": None, "inc": None}
+            if rng.random() < 0.6:
+                o["def"] = {INT: "0", REAL: "0.5", CHAR: "x"}.get(ty, rng.choice(["", "dflt", "default-value-of-some-length"]))
+            if rng.random() < 0.5:
+                o["env"] = "C14M%d_%d" % (k, cid % 89)
+            t.opts.append(o)
+        if rng.random() < 0.5:
+            t.opts.append({"name": "-b", "type": NONE, "def": None, "env": None, "range": None, "tog": None, "req": None, "inc": None})
+        strs = [o for o in t.opts if o["type"] >= STRING]
+        if len(strs) >= 2 and rng.random() < 0.4:
+            a, b = strs[0], strs[1]                 # a toggle-tied pair of string options: setting one frees the other's block
+            a["tog"], b["tog"] = b["name"], a["name"]
+            if a["def"] is not None and b["def"] is not None:
+                b["def"] = None
+        ops = t.lines() + ["create"]
+        sticky = len(ops)
+        argopts = [o for o in t.opts if o["type"] != NONE]
+        last_len = {}
+        nsrc = rng.choice([2, 3, 3, 4, 5, 6])
+        trend = rng.choice(["down", "up", "equal", "mixed", "mixed", "saw"])
+        spoofed = cmd = envd = False
+        for k in range(nsrc):
+            r = rng.random()
+            chosen = [o for o in argopts if rng.random() < 0.8] or argopts[:1]
+            def newlen(o):
+                prev = last_len.get(o["name"])
+                if prev is None:
+                    L = rng.choice(self.LENS)
+                else:
+                    tr = trend if trend not in ("mixed", "saw") else (rng.choice(["down", "up", "equal"]) if trend == "mixed" else ("down" if k % 2 else "up"))
+                    if tr == "down":
+                        L = rng.choice([max(1, prev - 1), max(1, prev // 2), 1, max(1, prev - rng.randrange(1, 9))])
+                    elif tr == "up":
+                        L = rng.choice([prev + 1, prev * 2, prev + rng.randrange(1, 9)])
+                    else:
+                        L = prev
+                if o["type"] == INT:
+                    L = min(L, 40)
+                last_len[o["name"]] = L
+                return L
+            if r < 0.72:
+                lines = []
+                for o in chosen:
+                    v = self.sized_value(o, newlen(o))
+                    last_len[o["name"]] = len(v)
+                    lines.append(o["name"] + rng.choice([" ", "\t", "  "]) + v + rng.choice(["", "", " # c"]))
+                if rng.random() < 0.2 and any(o["type"] == NONE for o in t.opts):
+                    lines.insert(rng.randrange(0, len(lines) + 1), "-b")
+                if rng.random() < 0.06:
+                    lines.append(chosen[0]["name"] + " again")          # second setting in the same file: usage error, value kept
+                if rng.random() < 0.05:
+                    lines.insert(rng.randrange(0, len(lines) + 1), "--nonesuch 1")
+                rng.shuffle(lines) if rng.random() < 0.3 else None
+                ops.append("cfg s=" + hx("\n".join(lines) + "\n"))
+                self.stats["cfg"] += 1
+            elif r < 0.82 and not envd and any(o["env"] for o in chosen):
+                envd = True
+                pairs = []
+                for o in chosen:
+                    if o["env"]:
+                        v = self.sized_value(o, newlen(o))
+                        last_len[o["name"]] = len(v)
+                        pairs.append((o["env"], v))
+                ops.append("env v=" + ",".join("%s:%s" % (hx(a), hx(b)) for a, b in pairs))
+                self.stats["env"] += 1
+            elif r < 0.94 and not cmd:
+                cmd = True
+                words = ["prog"]
+                for o in chosen[:rng.choice([1, 1, 2, 5])]:
+                    v = self.sized_value(o, newlen(o))
+                    last_len[o["name"]] = len(v)
+                    words += [o["name"], v]
+                words += rng.choice([[], ["file1"]])
+                if rng.random() < 0.3 and not spoofed:
+                    spoofed = True
+                    ops.append("spoof s=" + hx(" ".join(words)))
+                    self.stats["spoof"] += 1
+                else:
+                    ops.append("cmdline w=" + ",".join(hx(w) for w in words))
+                    self.stats["cmdline"] += 1
+            else:
+                ops.append("reuse")
+                last_len = {}
+                spoofed = cmd = envd = False
+                self.stats["reuse"] += 1
+            ops.append("dump")
+        ops += ["verify", "dump"]
+        self.stats["multicfg_cases"] = self.stats.get("multicfg_cases", 0) + 1
+        return {"name": "mcfg%d" % cid, "ops": ops, "sticky": sticky}
+
     # ---------------------------------------------------------------- a case
     def case(self, cid):
         if cid % 25 == 7:
             return self.prefix_pair_case(cid)
+        if cid % 25 in (13, 21):
+            return self.multicfg_case(cid)
         rng = self.rng
         t = self.table(cid)
         self.cmd_used = set()                      # options already set on an earlier command line of this case
@@ -704,6 +830,8 @@ class C14(Prop):
         "setting_succeeds_iff", "integer_argument_syntax", "real_argument_syntax", "real_argument_syntax_iff", "wf_is_computable", "strict_tables_are_wf", "created_object_every_history_clean", "char_argument_syntax", "rejected_setting_changes_nothing", "unknown_long_option", "ambiguous_long_option", "argument_to_flag",
         "missing_argument_long", "unknown_short_option", "verifyConfig_ok_iff_consistent",
         "int_range_two_sided", "int_range_lower", "int_range_upper", "range_string_two_sided", "char_range_two_sided", "real_range_two_sided", "real_range_two_sided_literal", "plain_decimal_is_real", "real_range_lower", "real_range_upper",
+        "alloc_store_exact", "alloc_set_option_refines", "alloc_valloc_after_set", "alloc_source_refines", "alloc_cfg_text_args",
+        "alloc_history_refines", "alloc_created_history", "alloc_reuse_is_fresh",
         "isUsed_iff", "isDefault_of_default_setter", "not_default_has_setter", "demo_wf")]
     claimed = True
     diverge_is_violation = True    # every op is a deterministic documented function of (table, sources so far)
@@ -888,7 +1016,7 @@ class C14(Prop):
         self._stats = g.stats
         return out
 
-    _realtok = re.compile(r"/x(-?\d+)e(-?\d+)(?=;|$)")
+    _realtok = re.compile(r"/x(-?\d+)e(-?\d+)(?=;|$| )")
 
     def canonical(self, line):
         if line.startswith("fault") or line.startswith("atexit"):
@@ -965,9 +1093,10 @@ class C14(Prop):
         return None
 
     def check_dump(self, case, l, cmd_failed=False):
-        m = re.match(r"ok argn=(-?\d+) args=(\S*) a0=(\S*) opts=(\S*)$", l)
+        m = re.match(r"ok argn=(-?\d+) args=(\S*) a0=(\S*) opts=(\S*) valloc=(\S*)$", l)
         if not m:
             return "malformed dump line %r" % l[:200]
+        vallocs = m.group(5).split(",")
         if m.group(3) != "~~":
             return "GetArg(0) / GetArg(-1) returned an argument"
         argn = int(m.group(1))
@@ -979,8 +1108,17 @@ class C14(Prop):
         fields = m.group(4).split(";")
         if len(fields) != len(types):
             return "dump has %d options, table has %d" % (len(fields), len(types))
+        if len(vallocs) != len(types):
+            return "dump has %d valloc entries, table has %d options" % (len(vallocs), len(types))
         for i, (f, ty, de) in enumerate(zip(fields, types, defs)):
             val, setby, flags, typed = f.split("/")
+            # allocation layer: a block is owned only by an argument-taking option that a config file set, and it holds
+            # the stored string with its terminator
+            va = int(vallocs[i])
+            if va < 0 or (va > 0 and (ty == 0 or val in ("~", "1") or int(setby) < 3 or len(unhx(val)) + 1 > va)):
+                return "option %d: valloc=%d with value %s set by %s (type %d)" % (i, va, val, setby, ty)
+            if va == 0 and ty != 0 and int(setby) >= 3 and val != "~":
+                return "option %d: a value set by a config file is not in a block owned by the object (valloc=0)" % i
             isdef, ison, isused = flags[0] == "1", flags[1] == "1", flags[2] == "1"
             if ison != (val != "~"):
                 return "option %d: IsOn=%s but value %s" % (i, ison, val)
@@ -1025,7 +1163,7 @@ class C14(Prop):
     def nontrivial(self, case, out):
         oksrc = any(l.startswith("ok ") for op, l in zip(case["ops"], out) if op.split()[0] in ("cmdline", "spoof", "env", "cfg"))
         last = out[-1] if out else ""
-        m = re.search(r"opts=(\S*)$", last)
+        m = re.search(r"opts=(\S*) valloc=\S*$", last)
         return bool(oksrc and m and any(f.split("/")[1] != "0" for f in m.group(1).split(";") if f.count("/") == 3))
 
     @staticmethod
@@ -1048,7 +1186,7 @@ class C14(Prop):
             elif w[0] == "cfg":
                 steps.append({"cfgfile": unhx(kv.get("s", "~")), "->": l})
             elif w[0] == "dump":
-                m = re.match(r"ok argn=(-?\d+) args=(\S*) a0=\S* opts=(\S*)$", l)
+                m = re.match(r"ok argn=(-?\d+) args=(\S*) a0=\S* opts=(\S*) valloc=\S*$", l)
                 if m:
                     steps.append({"dump": {"args": [unhx(a) for a in m.group(2).split(",") if a][:-1],
                                            "options(value/setter/IsDefault,IsOn,IsUsed/getter)": m.group(3).split(";")}})
